@@ -41,7 +41,7 @@ use revm::primitives::{
     keccak256, AccountInfo, Address, Bytecode, Bytes, EVMError, ExecutionResult, HaltReason, HandlerCfg,
     InvalidTransaction, OptimismInvalidTransaction, SpecId, TxKind, B256, U256,
 };
-use revm::{Database, Evm, L1BlockInfo, BASE_FEE_RECIPIENT, L1_BLOCK_CONTRACT, L1_FEE_RECIPIENT};
+use revm::{Database, DatabaseCommit, Evm, L1BlockInfo, BASE_FEE_RECIPIENT, L1_BLOCK_CONTRACT, L1_FEE_RECIPIENT};
 use std::sync::Arc;
 
 pub const OP_SPECS: [u8; 8] = [16, 17, 19, 21, 22, 23, 24, 27];
@@ -421,6 +421,194 @@ pub fn exec_line(line: &str) -> String {
             guarded(move || run_tx(&l, true).reply)
         }
         _ => "bad-op".into(),
+    }
+}
+
+
+// ------------------------------------------------------------------ histories on one Evm (component `ophist`)
+//   begin ophist <spec> <sender balance> <sender nonce>                      -> ok
+//   oh slots <s1> <s5> <s6> <s7> <s3> <s8>                                   -> ok   (L1Block storage from now on)
+//   oh tx <deposit> <mint|n> <gas_limit> <gas_price> <value> <basefee> <enveloped|n> <remaining> <refunded>
+//        -> the `optx` reply; ONE Evm runs all transactions of the case, each result is committed to its CacheDB.
+//   The target is a STOP contract (frame class ok), the frame's gas numbers are injected as in `optx`.
+//   The property: every transaction is charged / credited the L1 cost of ITS OWN envelope under the slots that
+//   are in the database when it runs (the model's Spec column is the single-transaction function).
+pub struct Hist {
+    evm: Evm<'static, Ext, CacheDB<EmptyDB>>,
+}
+
+impl Hist {
+    pub fn begin(t: &[&str]) -> Option<Hist> {
+        if t.len() != 5 { return None; }
+        let spec = pspec(t[2])?;
+        let bal = pw(t[3])?;
+        let nonce = pd(t[4])?;
+        let mut db = l1_db(&[U256::ZERO; 6]);
+        db.insert_account_info(sender(), AccountInfo { balance: bal, nonce, ..Default::default() });
+        let code = prog_code("stop");
+        db.insert_account_info(callee(), AccountInfo { nonce: 1, code_hash: keccak256(&code), code: Some(Bytecode::new_legacy(Bytes::from(code))), ..Default::default() });
+        let evm = Evm::builder()
+            .with_db(db)
+            .with_external_context(Ext::default())
+            .with_handler_cfg(HandlerCfg::new_with_optimism(spec, true))
+            .append_handler_register(frame_register)
+            .modify_block_env(|b| b.coinbase = coinbase())
+            .build();
+        Some(Hist { evm })
+    }
+    fn bal(&mut self, a: Address) -> U256 {
+        self.evm.context.evm.db.basic(a).ok().flatten().map(|i| i.balance).unwrap_or_default()
+    }
+    fn nonce(&mut self, a: Address) -> u64 {
+        self.evm.context.evm.db.basic(a).ok().flatten().map(|i| i.nonce).unwrap_or_default()
+    }
+    pub fn exec(&mut self, t: &[&str]) -> Option<String> {
+        match *t.get(1)? {
+            "slots" => {
+                if t.len() != 8 { return None; }
+                let mut s = [U256::ZERO; 6];
+                for i in 0..6 { s[i] = pw(t[2 + i])?; }
+                for (k, v) in [1u64, 5, 6, 7, 3, 8].iter().zip(s.iter()) {
+                    self.evm.context.evm.db.insert_account_storage(L1_BLOCK_CONTRACT, U256::from(*k), *v).ok()?;
+                }
+                Some("ok".into())
+            }
+            "tx" => {
+                if t.len() != 11 { return None; }
+                let deposit = match t[2] { "0" => false, "1" => true, _ => return None };
+                let mint = match pow(t[3])? { None => None, Some(w) => Some(u128::try_from(w).ok()?) };
+                let (gas_limit, gas_price, value, basefee) = (pd(t[4])?, pw(t[5])?, pw(t[6])?, pw(t[7])?);
+                let env = if t[8] == "n" { None } else { Some(pb(t[8])?) };
+                let (rem, refd) = (pd(t[9])?, pi(t[10])?);
+                let acc = [sender(), coinbase(), BASE_FEE_RECIPIENT, L1_FEE_RECIPIENT, OPERATOR_FEE_RECIPIENT, callee()];
+                let mut pre = [U256::ZERO; 6];
+                for i in 0..6 { pre[i] = self.bal(acc[i]); }
+                let pre_nonce = self.nonce(sender());
+                // the oracle only needs these fields
+                let l = TxLine { spec: SpecId::LATEST, deposit, system: None, mint, create: false, prog: "stop".into(), gas_limit, gas_price, prio: None, value, basefee,
+                    data: vec![], env: env.clone(), tx_nonce: None, s_nonce: pre_nonce, bal: pre, slots: [U256::ZERO; 6], cls: "ok".into(), rem, refd };
+                self.evm.context.external.inject = Some((rem, refd));
+                self.evm.context.external.seen = None;
+                self.evm.context.evm.env.block.basefee = basefee;
+                {
+                    let tx = &mut self.evm.context.evm.env.tx;
+                    tx.caller = sender();
+                    tx.transact_to = TxKind::Call(callee());
+                    tx.value = value;
+                    tx.gas_limit = gas_limit;
+                    tx.gas_price = gas_price;
+                    tx.gas_priority_fee = None;
+                    tx.data = Bytes::new();
+                    tx.nonce = None;
+                    tx.optimism.source_hash = if deposit { Some(B256::with_last_byte(7)) } else { None };
+                    tx.optimism.mint = mint;
+                    tx.optimism.is_system_transaction = None;
+                    tx.optimism.enveloped_tx = env.map(Bytes::from);
+                }
+                let res = self.evm.transact();
+                Some(match res {
+                    Err(EVMError::Transaction(e)) => format!("err:{}", err_class(&e)),
+                    Err(EVMError::Custom(_)) => "err:custom".to_string(),
+                    Err(EVMError::Header(_)) => "err:header".to_string(),
+                    Err(_) => "err:db".to_string(),
+                    Ok(rs) => {
+                        let (kind, used, refunded) = match &rs.result {
+                            ExecutionResult::Success { gas_used, gas_refunded, .. } => ("success", *gas_used, *gas_refunded),
+                            ExecutionResult::Revert { gas_used, .. } => ("revert", *gas_used, 0),
+                            ExecutionResult::Halt { reason: HaltReason::FailedDeposit, gas_used } => ("faileddeposit", *gas_used, 0),
+                            ExecutionResult::Halt { gas_used, .. } => ("halt", *gas_used, 0),
+                        };
+                        self.evm.context.evm.db.commit(rs.state);
+                        let mut post = [U256::ZERO; 6];
+                        for i in 0..6 { post[i] = self.bal(acc[i]); }
+                        let nonce = self.nonce(sender());
+                        let cons = oracle(&l, &post);
+                        format!("{} {} {} {} {} {} {} {} {} {} cons={}", kind, used, refunded, nonce, hx(post[0]), hx(post[1]), hx(post[2]), hx(post[3]), hx(post[4]), hx(post[5]), cons)
+                    }
+                })
+            }
+            _ => None,
+        }
+    }
+}
+
+pub fn gen_ophist(seed: u64, n: usize) -> Vec<String> {
+    let mut rng = Rng::new(seed ^ 0x0C33_4157);
+    let mut lines = Vec::new();
+    let join = |s: &[U256; 6]| s.iter().map(|w| hx(*w)).collect::<Vec<_>>().join(" ");
+    for case in 0..n {
+        let spec = spec_of(&mut rng);
+        // ample balance: every transaction of the case is valid unless an invalid one is generated on purpose
+        let bal = U256::from(10u64).pow(U256::from(33)) + U256::from(rng.below(1000));
+        lines.push(format!("begin ophist {spec} {} {}", hx(bal), rng.below(1000)));
+        lines.push(format!("oh slots {}", join(&rnd_slots(&mut rng, false))));
+        let steps = rng.range(2, 5);
+        // shapes: regular/regular(/..), regular/deposit/regular, with or without a slot change in between
+        let shape = case % 4;
+        for k in 0..steps {
+            if k > 0 && (shape == 1 || (shape == 3 && rng.chance(1, 2))) {
+                lines.push(format!("oh slots {}", join(&rnd_slots(&mut rng, false))));
+            }
+            let deposit = (shape == 2 && k == 1) || (shape == 3 && rng.chance(1, 4));
+            let gas_limit = 21_000 + rng.below(200_000);
+            let basefee = match rng.below(3) { 0 => U256::ZERO, 1 => U256::from(7), _ => U256::from(rng.below(10_000_000_000)) };
+            let gas_price = if deposit { U256::ZERO } else { basefee + U256::from(rng.below(3_000_000_000)) };
+            let value = match rng.below(3) { 0 => U256::ZERO, 1 => U256::from(1), _ => U256::from(rng.below(1_000_000_000_000)) };
+            let mint = if deposit { match rng.below(3) { 0 => "n".to_string(), 1 => "0".to_string(), _ => format!("{:x}", rng.below(1_000_000_000_000_000_000)) } } else { "n".to_string() };
+            // envelopes of different length and compressibility; a few empty / 0x7f ones (cost 0, nothing cached)
+            let env = if !deposit && rng.chance(1, 60) { "n".to_string() } else {
+                let mut e = rnd_input(&mut rng, 1200);
+                if e.is_empty() && rng.chance(3, 4) { let len = 1 + rng.below(300) as usize; e = rng.bytes(len); }
+                hxb(&e)
+            };
+            let room = gas_limit - 21_000;
+            let rem = match rng.below(3) { 0 => 0, 1 => room, _ => rng.below(room + 1) };
+            let refd = match rng.below(3) { 0 => 0, 1 => 4800, _ => rng.below(30_000) as i64 };
+            lines.push(format!("oh tx {} {} {} {} {} {} {} {} {}", b01(deposit), mint, gas_limit, hx(gas_price), hx(value), hx(basefee), env, rem, refd));
+        }
+    }
+    lines
+}
+
+pub fn run_ophist(seed: u64, n: usize, replay: Option<Vec<String>>, out: &mut Out) {
+    let lines = replay.unwrap_or_else(|| gen_ophist(seed, n));
+    let mut cur: Option<Hist> = None;
+    let mut regular_in_case = 0u32;
+    for l in lines {
+        let t: Vec<&str> = l.split(' ').collect();
+        let r = if t.first() == Some(&"begin") && t.get(1) == Some(&"ophist") {
+            let tv = t.clone();
+            let h = std::panic::catch_unwind(move || Hist::begin(&tv)).unwrap_or(None);
+            regular_in_case = 0;
+            match h {
+                Some(h) => { cur = Some(h); out.count("ophist:case"); "ok".to_string() }
+                None => { cur = None; "bad-op".to_string() }
+            }
+        } else if t.first() == Some(&"oh") {
+            match cur.as_mut() {
+                None => "bad-op".to_string(),
+                Some(h) => {
+                    let tv = t.clone();
+                    let res = std::panic::catch_unwind(std::panic::AssertUnwindSafe(|| h.exec(&tv)));
+                    match res {
+                        Ok(Some(s)) => s,
+                        Ok(None) => "bad-op".to_string(),
+                        Err(_) => { cur = None; "panic".to_string() }
+                    }
+                }
+            }
+        } else {
+            "bad-op".to_string()
+        };
+        if t.get(1) == Some(&"tx") {
+            out.count(&format!("ophist-tx:{}", r.split(' ').next().unwrap_or("?")));
+            if t.get(2) == Some(&"0") && !r.starts_with("err") && r != "bad-op" {
+                regular_in_case += 1;
+                if regular_in_case >= 2 { out.count("ophist:regular-after-regular-on-same-evm"); }
+            } else if t.get(2) == Some(&"1") { regular_in_case = 0; }
+        }
+        if t.get(1) == Some(&"slots") { out.count("ophist:slots-change"); }
+        out.push(l, r);
     }
 }
 
